@@ -11,7 +11,11 @@ the implementation; the dense form of the RESULT network (computed by the model'
 `dense` from the dumped result tensors) must equal the expectation computed in Coq
 from the dense forms of the INPUT networks with the list helpers of C09/Model.v.
 Oracle (tolerance, tests): every 1D compression method x sweep direction x input
-kind; from_dense round trips; float data through the same operations.
+kind; from_dense round trips; float data through the same operations; operands with
+stored exponents through every arithmetic entry point.
+Record histories (coq/C09/RecordModel.v, Record.v): calls sharing one caller-supplied
+`info` dict - the record info["cur_orthog"] equals the proved model's after every call
+(exact), values / truncation errors against numpy (tolerance, tests).
 """
 
 import inspect
@@ -35,7 +39,16 @@ RULE = (
     "every method x all six boolean options (normalize, sweep_reverse, canonize, permute_arrays, equalize_norms, inplace; "
     "quick: the 4 normalize x sweep_reverse settings x 2 complementary settings of the rest, thorough: all 64) with the "
     "promise of each option checked; bond cap of every method (and gate_with_mpo) for caps off the doubling schedule "
-    "(9..23 and 3,5,6,7) on rank-32 targets; MatrixProductState.compress_site against the sequential SVD optimum."
+    "(9..23 and 3,5,6,7) on rank-32 targets; MatrixProductState.compress_site against the sequential SVD optimum. "
+    "record histories: 2-6 calls sharing ONE caller-supplied info dict on a generic non-canonical MPS (L 5..8, bond 3..5, "
+    "non-flat spectra; initial info missing / 'calc' / None / a true pair / a wider true pair): canonicalize (int, 1-tuple, "
+    "pair, reversed pair; in place or not), gate_with_submpo / gate_nonlocal / gate(contract='nonlocal') on site subsets x "
+    "sweep_reverse x {direct, dm, zipup (thorough: src, fit)} x in place or not x transpose x {untruncated, max_bond 1..3}, "
+    "compute_local_expectation (canonical on a copy / in place, envs), local_expectation_canonical, "
+    "partial_trace_to_dense_canonical on 1-3 terms (bare site, adjacent, distant, reversed pairs), normalized or not; families: "
+    "random, an untruncated application followed by a truncating 'direct' one placed left of / inside / overlapping / right "
+    "of it, queries at both ends of the chain followed by a call that consumes the record. stored exponents: every arithmetic "
+    "entry point on operands whose .exponent is drawn independently from {0,+-1,+-2,3}."
 )
 
 HEADER = tm.HEADER + "From QV Require Import C09.Model.\n"
@@ -1843,7 +1856,7 @@ def exponent_stream(ctx):
     from quimb.tensor.tn1d.compress import tensor_network_1d_compress
 
     rng = ctx.rng
-    for n in range(ctx.n(36, 400)):
+    for n in range(ctx.n(80, 600)):
         L = rng.choice([1, 2, 3, 3, 4, 4, 5])
         kind = rng.choice(["mps", "mps", "mpo"])
         if kind == "mpo":
@@ -2515,6 +2528,12 @@ def run(ctx):
         "sweeps and compress(form)); tied by compress_bonds_check: bond sizes after mps.compress(form, max_bond, cutoff=0) on "
         "generic data equal the model's, for every form. Oracle contracts (validated numerically each run, not proved): reduced "
         "QR / SVD factors are isometries, SVD returns min(m, n) values, cutoff=0 keeps min(max_bond, rank bound) values",
+        "C09/Record.v: the canonical-centre record info['cur_orthog'] (C09/RecordModel.v: parse/setdefault rule, canonicalize's "
+        "range arithmetic and shift programs, the record written by gate_with_submpo per sweep direction, the copy discipline and the "
+        "term order of compute_local_expectation_canonical) on top of the isometry statuses of C09/Model.v; tied by step_check: after "
+        "EVERY call of every observed history the implementation's record equals the model's and every isometry the model guarantees "
+        "is measured on the state. Oracle contracts (measured on every call, not proved): QR / LQ factors are isometries, the "
+        "compression of a region leaves the canonical form its sweep direction promises, calc_current_orthog_center reports true facts",
         "modelled, not verified: the Python control flow of tensor_network_apply_op_vec/op_op, tensor_network_ag_sum, "
         "TensorNetwork.multiply, partial_trace_to_mpo, partial_transpose, the named generators and every method of "
         "tensor_network_1d_compress is covered by correspondence / oracle runs, not by a theorem about that code; float "
@@ -2524,6 +2543,12 @@ def run(ctx):
         "not carried by a theorem (tests only, tolerance): reproduction without truncation, canonical form and bond cap of "
         "the 17 registered 1D compression methods; the direct method's error <= sqrt(sum over cuts of the discarded squared "
         "Schmidt values of the input) and >= the Eckart-Young bound; from_dense round trips; single-precision dtypes",
+        "record histories (tests, tolerance 1e-9 / 1e-8): state vectors and expectation values against numpy; a truncating 'direct' "
+        "application must equal the cut-by-cut optimal truncation of the exact result (independent SVD reference) and stay below the "
+        "root-sum-square of the discarded singular values; method 'lazy' (no MPS is returned) and records of other types (int, list) "
+        "are outside the stream",
+        "stored exponents (test, 1e-10 relative; 1e-9 / 1e-8 where an exact recompression is part of the call): numpy reference "
+        "10**e * dense(tensors) per operand",
         "periodic sums need L >= 3 (tensor_network_ag_sum documents one bond per pair of sites); 1D compression methods "
         "always return open-boundary networks; periodic chains are exercised through MPS.compress only",
         "exact comparisons round implementation values to Gaussian integers within 1e-7 relative (tnmodel.to_gauss)",
